@@ -578,6 +578,9 @@ func (r *Renderer) Files() map[string]string {
 	}
 	for _, fi := range sortedIntKeys2(files) {
 		f := r.newFile(0, "wireinject")
+		if c := s.InjConstraints[fi]; c != "" {
+			f.tag = c
+		}
 		for _, bp := range s.Blank {
 			f.imports[bp] = "_"
 		}
